@@ -140,7 +140,7 @@ class BlastHooks(QHooks):
         return [Outcome(ret=TOP)]
 
     def on_assign(self, E, x, path, val):
-        if path == 'G:flagcritical':
+        if path == self.critflag:
             E.set('$crit', val if val is not TOP else fs(-1))
 
     def on_exit(self, E, x):
@@ -179,6 +179,17 @@ def run(ctx):
                  'for every input over {CR,LF,DOT,other}: no bare LF on the wire, CRLF.CRLF only as the final terminator, '
                  'an RFC 5321 receiver decodes exactly the input lines, unterminated last line refused')
     H = BlastHooks()
+    # the flag that guards the "Possible duplicate" warning in dropped()
+    from qv.lib import branch_zero_test, _cmp_parts
+    dr = prog.fn('dropped', 'qmail-remote.c')
+    H.critflag = None
+    for c in dr.calls('out'):
+        if c.args[0].string and 'duplicate' in c.args[0].string.lower():
+            for cc, t in dr.guards(c) or []:
+                if branch_zero_test(cc, t, lambda v: (v.path() or '').startswith('G:')) == 'nonzero':
+                    H.critflag = _cmp_parts(cc)[0].path()
+    if H.critflag is None:
+        raise AnalysisBroken('dropped(): the flag guarding the duplicate warning was not identified')
     eng = Engine(db, prog, H)
     eng.run(blast)
     rep.count_states(eng.states, eng.transitions)
